@@ -127,8 +127,9 @@ class PendingTransport(object):
         self.connected = 0
         self.disconnecting = 0
         self.disconnected = 0
-        one_off = connector.reactor.world.take_sockfail()
-        self.sock = FakeSocket(connector.reactor.world.cfg.get("sockopt_errno") or one_off)
+        world = connector.reactor.world
+        one_off = getattr(world, "take_sockfail", lambda: None)()
+        self.sock = FakeSocket(getattr(world, "cfg", {}).get("sockopt_errno") or one_off)
 
     def getHandle(self):
         return self.sock
@@ -201,7 +202,7 @@ class SimConnector(object):
         self.timeout = timeout
         self.bindAddress = bindAddress
         # not bound to an address: the kernel picks the source address, per connection (cfg local_hosts)
-        hosts = reactor.world.cfg.get("local_hosts") or ["10.0.0.1"]
+        hosts = getattr(reactor.world, "cfg", {}).get("local_hosts") or ["10.0.0.1"]
         self.local_host = hosts[cid % len(hosts)]
         if bindAddress and bindAddress[0] not in (None, "", "0.0.0.0"):
             self.local_host = bindAddress[0]
